@@ -134,10 +134,14 @@ def _(E, case):
                                                                       "Polygon"],
         funcs=["Rect.segments", "SimpleLine.segments", "_Polyshape.segments", "PathSegment.__mul__",
                "Matrix.is_identity", "Matrix.point_in_matrix_space"], props=["C06", "C02"], kind="S",
+        uses=["C02/Arc.__imul__/contract"],
         note="point lists of Polyline/Polygon have a fixed representative length 3", timeout_ms=60000)
 def _(E, kind):
     if kind == "RoundedRect":
         s = mk_shape(E, "Rect")
+        from .arc import arc_imul_contract
+
+        E.use_contract("Arc.__imul__", arc_imul_contract)
     elif kind == "Rect":
         x, y = E.reals("x y", NUM)
         w, h = E.reals("w h", POSN)
